@@ -410,8 +410,8 @@ inline constexpr void Conversion<Unit::Area, Unit::Area::SquareMicroinch>::ToSta
 }
 
 template <typename NumericType>
-inline const std::map<Unit::Area, std::function<void(NumericType* const, const std::size_t size)>>
-    MapOfConversionsFromStandard<Unit::Area, NumericType>{
+inline constexpr auto MapOfConversionsFromStandard<Unit::Area, NumericType>{
+  MakeConversionTable<Unit::Area, NumericType>({
       {Unit::Area::SquareMetre,
        Conversions<Unit::Area,                                 Unit::Area::SquareMetre>::FromStandard<NumericType>       },
       {Unit::Area::SquareNauticalMile,
@@ -441,11 +441,12 @@ inline const std::map<Unit::Area, std::function<void(NumericType* const, const s
        Conversions<Unit::Area,                                 Unit::Area::SquareMicrometre>::FromStandard<NumericType>  },
       {Unit::Area::SquareMicroinch,
        Conversions<Unit::Area,                                 Unit::Area::SquareMicroinch>::FromStandard<NumericType>   },
+})
 };
 
 template <typename NumericType>
-inline const std::map<Unit::Area, std::function<void(NumericType* values, const std::size_t size)>>
-    MapOfConversionsToStandard<Unit::Area, NumericType>{
+inline constexpr auto MapOfConversionsToStandard<Unit::Area, NumericType>{
+  MakeConversionTable<Unit::Area, NumericType>({
       {Unit::Area::SquareMetre,
        Conversions<Unit::Area,                                 Unit::Area::SquareMetre>::ToStandard<NumericType>       },
       {Unit::Area::SquareNauticalMile,
@@ -474,6 +475,7 @@ inline const std::map<Unit::Area, std::function<void(NumericType* values, const 
        Conversions<Unit::Area,                                 Unit::Area::SquareMicrometre>::ToStandard<NumericType>  },
       {Unit::Area::SquareMicroinch,
        Conversions<Unit::Area,                                 Unit::Area::SquareMicroinch>::ToStandard<NumericType>   },
+})
 };
 
 }  // namespace Internal
